@@ -1,4 +1,7 @@
 // Shared specification vocabulary (DESIGN.md section 5). Spec and proof code only.
+// the only target on which the 64-bit digit / asm configuration exists: usize is 64 bits wide
+global size_of usize == 8;
+
 pub type BigDigit = u64;
 pub type DoubleBigDigit = u128;
 
